@@ -16,7 +16,7 @@ TV      one pipeline per shard, two trace-validation passes around the harness (
                          (meant equivalent: order, repeated, ttl, owner-case, rdata-name-case, signer-case, key-owner-case, \\DDD
                          spelling, other expansions of a wildcard; meant altered: RDATA, record added / dropped, owner, type, class,
                          signer, key tag, labels, original TTL, expiration, inception, signature, other key, non-zone key, protocol,
-                         algorithm; forged: to be signed by the standard library) and, for one signature in three, every bit of the
+                         algorithm; forged: to be signed by the standard library, incl. names differing in one octet by 0x20 for every octet value) and, for one signature in three, every bit of the
                          RRSIG RDATA and DNSKEY RDATA (quick: inside signature / public key one bit per octet)
           Trace_Dnssec   pass 1: Sign must succeed and fill the fields as SignFills says; emits SignedData for every event
           dnssec finish  (1) crypto/rsa|ecdsa|ed25519 verify the REAL signature over the SPEC's octets; (5) forged variants are signed by
@@ -36,6 +36,10 @@ Mutants (checks/mutants/C10; each `VERIF_REPO=/tmp/comp-x bin/check C10 quick` e
   mx-not-lowercased.diff    MX exchange keeps its case                      -> finish (1) ...:MX:rdata-name-uppercase; pass 2 verify-rejects-valid:MX:rdata-name-case
   labels-off-by-one.diff    owner labels <= Labels refused                  -> pass 2 verify-rejects-valid:orig:* (every non-wildcard owner)
   protocol-unchecked.diff   DNSKEY protocol not looked at                   -> pass 2 verify-accepts-invalid:forge-key-protocol:protocol
+  equal-overfolds.diff      labels.go equal() takes any two octets 0x20 apart (>= 'A') for one letter: [ {, ] }, ^ ~ -> pass 2
+                            verify-accepts-invalid:forge-key-owner-xor20:signer and ...:forge-rrsig-owner-xor20:owner (stdlib-signed variants whose
+                            DNSKEY owner / RRSIG owner differs from the signer / RRset owner in one octet by 0x20; a window of octet values per
+                            signature, all 256 values in every quick run)
   reintroduce-nxt-not-lowercased.diff     reverse of fix fb0255f            -> finish (1) sign-not-over-canonical-octets:NXT:rdata-name-uppercase; pass 2
                             verify-rejects-valid:NXT:rdata-name-case, verify-accepts-invalid:signature:unaltered:NXT:rdata-name-uppercase
   reintroduce-star-prefix-wildcard.diff   reverse of fix f3cd792            -> pass 1 sign-fields:Labels:star-prefixed-label; finish (1) ...:star-prefixed-label
